@@ -42,6 +42,9 @@ func HarnessC40Intersect() {
 				havePrev, px, pe = true, ent.Start, ent.End
 			}
 		}
+		// (registered before every insertion: once a bridging insertion has happened the
+		// structure is corrupt and later answers may be wrong too)
+		zz.Known("C40/intersect-bridges-touching-entries", kn)
 		disjoint := m.Insert(s, e, i)
 		zz.Assert(zz.Iff(disjoint, !inter), "C40/insert-reports-disjointness")
 	}
